@@ -23,6 +23,7 @@ type Config struct {
 	MaxDepth  int                         // bucket nesting
 	NoBigKeys bool
 	Managed   float64 // probability that a write transaction runs inside DB.Update (body returns nil, an error, or panics)
+	HeldReaders float64 // probability (per write transaction) that a read transaction is opened and kept across the following ones; needs a large initial map (set by Generate)
 	FailCommit float64 // probability that the commit of an (unmanaged) write transaction gets one injected I/O failure
 }
 
@@ -317,6 +318,13 @@ func Generate(seed int64, caseNo int, cfg Config) *Program {
 	g := &genState{r: r, cfg: cfg, sim: NewSim(), p: &Program{Name: cfg.Profile, Seed: seed, Case: caseNo}}
 	opts := cfg.Opts
 	opts.PageSize = cfg.PageSize
+	if cfg.HeldReaders > 0 {
+		// a reader held by the goroutine that drives a remapping writer deadlocks by design: map once, generously
+		opts.InitialMmapSize = 256 << 20
+		opts.AllocSize = 64 << 10
+		cfg.Opts = opts
+	}
+	nheld := 0
 	g.emit(Step{Op: "open", Opts: &opts})
 	for t := 0; t < cfg.Txs; t++ {
 		managed := r.Float64() < cfg.Managed
@@ -374,13 +382,27 @@ func Generate(seed int64, caseNo int, cfg Config) *Program {
 			}
 			g.emit(Step{Op: "rollback"})
 		}
+		if cfg.HeldReaders > 0 {
+			if nheld < 3 && r.Float64() < cfg.HeldReaders {
+				g.emit(Step{Op: "heldBegin"})
+				nheld++
+			}
+			if nheld > 0 && r.Intn(3) == 0 {
+				g.emit(Step{Op: "heldEnd", N: r.Intn(3)})
+				nheld--
+			}
+		}
 		if r.Float64() < cfg.Reopen {
 			g.emit(Step{Op: "close"})
+			nheld = 0
 			o := opts
 			if cfg.OptSched != nil {
 				o = cfg.OptSched(r)
 				if o.PageSize == 0 {
 					o.PageSize = cfg.PageSize
+				}
+				if cfg.HeldReaders > 0 {
+					o.InitialMmapSize, o.AllocSize = opts.InitialMmapSize, opts.AllocSize
 				}
 			}
 			g.emit(Step{Op: "reopen", Opts: &o})
